@@ -88,14 +88,14 @@ def jGen (g : Gener) : J :=
 def jPairs (ps : List (Str × Str)) : J := .l (ps.map fun p => .l [jS p.1, jS p.2])
 def jShort (s : Short) : J := .l [jOpt .v s.frequency, jOpt jSs s.block, jOpt jPairs s.connection, jOpt jPairs s.generator]
 def jRZ : RZSub → J
-  | .radii xs => .l [jS (k "radii"), jVs xs]
-  | .equid d => .l [jS (k "equid"), jDict d]
-  | .logar d => .l [jS (k "logar"), jDict d]
-  | .layer xs => .l [jS (k "layer"), jVs xs]
+  | .radii xs => .l [jS (c!"radii"), jVs xs]
+  | .equid d => .l [jS (c!"equid"), jDict d]
+  | .logar d => .l [jS (c!"logar"), jDict d]
+  | .layer xs => .l [jS (c!"layer"), jVs xs]
 def jMM : MeshMaker → J
-  | .rz2d subs => .l [jS (k "rz2d"), .l (subs.map jRZ)]
-  | .xyz deg subs => .l [jS (k "xyz"), .v deg, .l (subs.map fun s => .l [.v s.ntype, .v s.no, .v s.del, jOpt jVs s.deli])]
-  | .minc m => .l [jS (k "minc"), .v m.type, .v m.dual, .v m.numContinua, .v m.where_, jVs m.spacing, jVs m.vol]
+  | .rz2d subs => .l [jS (c!"rz2d"), .l (subs.map jRZ)]
+  | .xyz deg subs => .l [jS (c!"xyz"), .v deg, .l (subs.map fun s => .l [.v s.ntype, .v s.no, .v s.del, jOpt jVs s.deli])]
+  | .minc m => .l [jS (c!"minc"), .v m.type, .v m.dual, .v m.numContinua, .v m.where_, jVs m.spacing, jVs m.vol]
 
 def jData (d : T2Data) : J :=
   .l [jS d.title, jS d.simulator, jS d.endKeyword, jSs d.sections, jSs d.extraPrecision, jB d.echo,
@@ -172,23 +172,23 @@ def dShort : J → Option Short
 def dRZ : J → Option RZSub
   | .l [kind, x] => do
     let kd ← dS kind
-    if kd == k "radii" then pure (.radii (← dL dV x))
-    else if kd == k "equid" then pure (.equid (← dDict x))
-    else if kd == k "logar" then pure (.logar (← dDict x))
-    else if kd == k "layer" then pure (.layer (← dL dV x))
+    if kd == c!"radii" then pure (.radii (← dL dV x))
+    else if kd == c!"equid" then pure (.equid (← dDict x))
+    else if kd == c!"logar" then pure (.logar (← dDict x))
+    else if kd == c!"layer" then pure (.layer (← dL dV x))
     else none
   | _ => none
 def dMM : J → Option MeshMaker
   | .l [kind, subs] => do
-    if (← dS kind) == k "rz2d" then pure (.rz2d (← dL dRZ subs)) else none
+    if (← dS kind) == c!"rz2d" then pure (.rz2d (← dL dRZ subs)) else none
   | .l [kind, deg, subs] => do
-    if (← dS kind) == k "xyz" then
+    if (← dS kind) == c!"xyz" then
       pure (.xyz (← dV deg) (← dL (fun
         | .l [nt, no, del, deli] => do pure { ntype := ← dV nt, no := ← dV no, del := ← dV del, deli := ← dOpt (dL dV) deli }
         | _ => none) subs))
     else none
   | .l [kind, type, dual, nc, wh, sp, vol] => do
-    if (← dS kind) == k "minc" then
+    if (← dS kind) == c!"minc" then
       pure (.minc { type := ← dV type, dual := ← dV dual, numContinua := ← dV nc, where_ := ← dV wh, spacing := ← dL dV sp, vol := ← dL dV vol })
     else none
   | _ => none
